@@ -21,6 +21,19 @@ Theorem C11_identity_bound_metadata : forall en mns dns csa ids v,
 Proof. exact authorize_bound_metadata. Qed.
 Print Assumptions C11_identity_bound_metadata.
 
+(* What the real connection setup (initConnection: node parsing, ConfigNamespace, authorize) establishes:
+   a connection that ends up with a verified identity is a proxy of the namespace its node claims
+   (c = GetProxyConfigNamespace of the node), and that namespace / the claimed service account are the
+   ones of an identity the credential proves. *)
+Theorem C11_connection_identity_bound : forall en node mns csa ids c v,
+  init_connection en node mns csa ids = ConnAccepted c (Some v) ->
+  en = true /\
+  (exists dns, node_dns_domain node = Some dns /\ c = config_namespace mns dns) /\
+  (exists l raw, ids = Some l /\ In raw l /\ parse_identity raw = Some v) /\
+  (c <> "" -> id_ns v = c) /\ (mns <> "" -> id_ns v = mns) /\ (csa <> "" -> id_sa v = csa).
+Proof. exact init_connection_bound. Qed.
+Print Assumptions C11_connection_identity_bound.
+
 (* With the check on, an authenticated stream none of whose identities matches the claim is refused. *)
 Theorem C11_identity_mismatch_denied : forall en cns csa l,
   en = true -> (forall raw, In raw l -> identity_matches cns csa raw = None) ->
@@ -42,6 +55,11 @@ Print Assumptions C11_verified_identity_wellformed.
 Theorem C11_unauthenticated_unverified : forall en cns csa, authorize en cns csa None = AuthAccepted None.
 Proof. exact authorize_unauthenticated. Qed.
 Print Assumptions C11_unauthenticated_unverified.
+
+Theorem C11_unauthenticated_connection_unverified : forall en node mns csa c v,
+  init_connection en node mns csa None = ConnAccepted c v -> v = None.
+Proof. exact init_connection_unverified. Qed.
+Print Assumptions C11_unauthenticated_connection_unverified.
 
 (* ... and such a proxy gets nothing over SDS, whatever the shared cache holds, and does not touch it. *)
 Theorem C11_unauthenticated_gets_nothing : forall w c p names r,
@@ -133,6 +151,16 @@ Proof. exact never_across_namespaces. Qed.
 Print Assumptions C11_never_across_namespaces.
 
 (* ---- the SubjectAccessReview-backed Authorize (kube/secrets.go) *)
+
+(* The authorization cache is keyed by the full user name, and that key is injective on identities with
+   colon-free namespaces: two different (namespace, service account) pairs never share a cache entry.
+   (The statements below rest on this; a key that is not injective -- e.g. namespace + "-" + SA -- lets one
+   identity inherit another's cached answer, which the harness exercises with colliding "-" names.) *)
+Theorem C11_kube_cache_key_injective : forall ns ns' sa sa',
+  no_colon ns = true -> no_colon ns' = true ->
+  mk_username ns sa = mk_username ns' sa' -> ns = ns' /\ sa = sa'.
+Proof. exact mk_username_inj. Qed.
+Print Assumptions C11_kube_cache_key_injective.
 
 (* Without a cached answer, Authorize succeeds exactly for a granted (namespace, service account). *)
 Theorem C11_kube_authorize_exact : forall grants sa ns,
